@@ -335,4 +335,5 @@ def run(ctx: Ctx, tier: str) -> Result:
         res.fail(Finding("C13.API", un.qname, rc[0] if rc else "<remove_custom>", un.loc(), "unregister does not pass the handle it was created with to remove_custom"))
     from .common import borrow
     borrow(ctx, res, tier, "c12", ("C12.APPLY",), "C13.INSTALL", "the trigger handler installs every published tracepoint (registered ones alongside the service's)")
+    borrow(ctx, res, tier, "c03", ("C03.LOOP",), "C13.ALONGSIDE", "every installed tracepoint of a location acts there (a registration is not shadowed by another tracepoint of the line)")
     return res
